@@ -197,8 +197,10 @@ fn ids() -> Vec<&'static str> {
 
 impl Prop for C14 {
     fn id(&self) -> &'static str { "C14" }
-    fn n_cases(&self, _tier: Tier) -> usize { ids().len() }
-    fn case_label(&self, _tier: Tier, idx: usize) -> String { format!("definition '{}'", ids()[idx]) }
+    fn n_cases(&self, _tier: Tier) -> usize { ids().len() + 1 }
+    fn case_label(&self, _tier: Tier, idx: usize) -> String {
+        if idx == ids().len() { "how a definition's parameters reach the protocol: settings builders and conversions".into() } else { format!("definition '{}'", ids()[idx]) }
+    }
     fn rule(&self) -> String {
         "case = one entry of GAMES (iterated from the table itself). For port {omitted, given} x timeout settings {None, \
          Some(retries=1)} x extra settings {None, every gather-toggle pair and check_app_id value / hostname + protocol version} \
@@ -213,6 +215,10 @@ impl Prop for C14 {
     }
     fn assumptions(&self) -> Vec<String> { vec!["the module for a definition is the macro-generated / hand-written module named after the id, with three documented renames".into()] }
     fn run_case(&self, _tier: Tier, idx: usize, ctx: &mut Ctx) {
+        if idx == ids().len() {
+            settings_conversions(ctx);
+            return;
+        }
         let id = ids()[idx];
         let game = gamedig::GAMES.get(id).unwrap();
         let label = format!("definition '{id}'");
@@ -352,4 +358,88 @@ fn module_path_exists(id: &str) -> bool {
     let m = module_of(id);
     WRAPPERS.iter().any(|(n, _, _)| *n == m)
         || matches!(id, "minecraft" | "minecraftjava" | "minecraftbedrock" | "minecraftpocket" | "minecraftlegacy16" | "minecraftlegacy14" | "minecraftlegacyb18" | "ffow" | "jc2m" | "savage2" | "mindustry" | "theship" | "battalion1944")
+}
+
+
+/// The generic entry point hands a definition's request settings to the protocol through `ExtraRequestSettings` and the
+/// `From` / `into_extra` conversions: over every combination of present / absent members they must carry each member to the
+/// field of the same meaning, fall back to the protocol's own default for an absent one, and the builder methods must set
+/// the member they name.
+fn settings_conversions(ctx: &mut Ctx) {
+    use gamedig::games::minecraft::RequestSettings as McSettings;
+    use gamedig::protocols::unreal2::GatheringSettings as U2Settings;
+    use gamedig::protocols::valve::GatheringSettings as ValveSettings;
+    let opt_toggles: Vec<Option<GatherToggle>> = std::iter::once(None).chain(TOGGLES.iter().copied().map(Some)).collect();
+    let opt_bools = [None, Some(true), Some(false)];
+    let opt_hosts = [None, Some(String::new()), Some("mc.example.org".to_string())];
+    let opt_versions = [None, Some(-1i32), Some(0), Some(765), Some(i32::MIN), Some(i32::MAX)];
+    let mut n = 0u64;
+    let mut bad = |ctx: &mut Ctx, what: &str, input: String, got: String, want: String| {
+        ctx.violation(format!("settings-conversion:{what}"), &[], input, got, want, vec![]);
+    };
+    for p in &opt_toggles {
+        for r in &opt_toggles {
+            for chk in &opt_bools {
+                for h in &opt_hosts {
+                    for pv in &opt_versions {
+                        n += 1;
+                        let lit = ExtraRequestSettings { hostname: h.clone(), protocol_version: *pv, gather_players: *p, gather_rules: *r, check_app_id: *chk };
+                        ctx.distinct_key(&format!("{lit:?}"));
+                        // builders
+                        let mut b = ExtraRequestSettings::default();
+                        if let Some(x) = h { b = b.set_hostname(x.clone()); }
+                        if let Some(x) = pv { b = b.set_protocol_version(*x); }
+                        if let Some(x) = p { b = b.set_gather_players(*x); }
+                        if let Some(x) = r { b = b.set_gather_rules(*x); }
+                        if let Some(x) = chk { b = b.set_check_app_id(*x); }
+                        if b != lit {
+                            bad(ctx, "builders", format!("{lit:?}"), format!("{b:?}"), format!("{lit:?}"));
+                        }
+                        // to the protocols
+                        let vd = ValveSettings::default();
+                        let v: ValveSettings = lit.clone().into();
+                        let vw = ValveSettings { players: p.unwrap_or(vd.players), rules: r.unwrap_or(vd.rules), check_app_id: chk.unwrap_or(vd.check_app_id) };
+                        if v != vw {
+                            bad(ctx, "valve", format!("{lit:?}"), format!("{v:?}"), format!("{vw:?}"));
+                        }
+                        let ud = U2Settings::default();
+                        let u: U2Settings = lit.clone().into();
+                        let uw = U2Settings { players: p.unwrap_or(ud.players), mutators_and_rules: r.unwrap_or(ud.mutators_and_rules) };
+                        if u != uw {
+                            bad(ctx, "unreal2", format!("{lit:?}"), format!("{u:?}"), format!("{uw:?}"));
+                        }
+                        let md = McSettings::default();
+                        let m: McSettings = lit.clone().into();
+                        let mw = McSettings { hostname: h.clone().unwrap_or(md.hostname.clone()), protocol_version: pv.unwrap_or(md.protocol_version) };
+                        if m != mw {
+                            bad(ctx, "minecraft", format!("{lit:?}"), format!("{m:?}"), format!("{mw:?}"));
+                        }
+                    }
+                }
+            }
+        }
+    }
+    // and back: a protocol's settings survive the trip through the generic form
+    for p in TOGGLES {
+        for r in TOGGLES {
+            for chk in [true, false] {
+                n += 1;
+                let v = ValveSettings { players: p, rules: r, check_app_id: chk };
+                let back: ValveSettings = v.into_extra().into();
+                if back != v {
+                    bad(ctx, "valve-round-trip", format!("{v:?}"), format!("{back:?}"), format!("{v:?}"));
+                }
+            }
+            n += 1;
+            let u = U2Settings { players: p, mutators_and_rules: r };
+            let back: U2Settings = u.into_extra().into();
+            if back != u {
+                bad(ctx, "unreal2-round-trip", format!("{u:?}"), format!("{back:?}"), format!("{u:?}"));
+            }
+        }
+    }
+    ctx.counters.evaluations += n;
+    ctx.counters.states += n;
+    ctx.counters.transitions += n * 4;
+    ctx.sample(json!({"case": "settings builders and conversions", "combinations": n}));
 }
